@@ -23,6 +23,7 @@ type c06Case struct {
 	Negative    string            `json:"negative,omitempty"`
 	ErrMust     string            `json:"err_must,omitempty"` // text the rejection has to carry
 	MustLoad    bool              `json:"must_load,omitempty"`
+	Opts        loadOpts          `json:"opts,omitempty"` // loader options of the caller: they reach the included files too
 }
 
 // prefixTopLevelPaths anchors the path-bearing attributes of top-level resources at dir.
@@ -78,6 +79,16 @@ func interpolateSomeLeaves(t *rapid.T, svc map[string]any, prefix string, defs m
 func genC06(t *rapid.T) c06Case {
 	target := genModel(t, modelOpts{MaxServices: 4, Rich: rapid.Bool().Draw(t, "rich")})
 	cs := c06Case{Env: map[string]string{"SECRET_token": "tok", "SECRET_cert": "cert", "SECRET_apikey": "key"}}
+	if rapid.IntRange(0, 2).Draw(t, "with-options") == 0 {
+		// options the caller sets apply to every file of the project, included ones too
+		bits := rapid.IntRange(1, 15).Draw(t, "options")
+		cs.Opts = loadOpts{SkipDefaultValues: bits&1 != 0, SkipNormalization: bits&2 != 0, SkipConsistencyCheck: bits&4 != 0, SkipResolveEnvironment: bits&8 != 0}
+		for i, n := range []string{"skip-default-values", "skip-normalization", "skip-consistency-check", "skip-resolve-environment"} {
+			if bits&(1<<i) != 0 {
+				cs.Features = append(cs.Features, "option:"+n)
+			}
+		}
+	}
 	svcs := target["services"].(map[string]any)
 	names := sortedKeys(svcs)
 	ngroups := rapid.IntRange(1, 3).Draw(t, "ngroups")
@@ -354,7 +365,7 @@ func genC06(t *rapid.T) c06Case {
 		includes := gr.doc["include"]
 		delete(gr.doc, "include")
 		if gr.override && len(gr.doc) > 0 && includes == nil {
-			sp := &splitter{t: t, n: 2, used: map[string]int{}}
+			sp := &splitter{t: t, n: 2, used: map[string]int{}, explicitDefaults: cs.Opts.SkipDefaultValues}
 			parts := sp.splitModel(gr.doc)
 			over := filepath.Join(gr.dir, "compose.override.yaml")
 			cs.Distributed = append(cs.Distributed, memFile{Name: gr.file, Content: emitYAMLStyled(parts[0], nil, styleSeed)}, memFile{Name: over, Content: emitYAMLStyled(parts[1], nil, styleSeed)})
@@ -432,13 +443,16 @@ func dotenvQuote(v string) string {
 	return v
 }
 
-func c06Load(files []memFile, env map[string]string) loadResult {
+func c06Load(files []memFile, env map[string]string, opts ...loadOpts) loadResult {
 	// everything lives in `proj/` (the working directory) or next to it
 	placed := make([]memFile, len(files))
 	for i, f := range files {
 		placed[i] = memFile{Name: filepath.Join("proj", f.Name), Content: f.Content, Dir: f.Dir}
 	}
 	lc := loadCase{Files: placed, Main: []string{"proj/compose.yaml"}, WorkDir: "proj", Env: env}
+	if len(opts) > 0 {
+		lc.Opts = opts[0]
+	}
 	root, cleanup, err := lc.materialise()
 	if err != nil {
 		return loadResult{Err: err}
@@ -467,7 +481,7 @@ func c06Check(c *Ctx, cs c06Case) *Failure {
 		}
 		return b.String()
 	}
-	rd := c06Load(cs.Distributed, cs.Env)
+	rd := c06Load(cs.Distributed, cs.Env, cs.Opts)
 	if rd.Panic != nil {
 		return rd.Panic
 	}
@@ -498,7 +512,7 @@ func c06Check(c *Ctx, cs c06Case) *Failure {
 	if penv == nil {
 		penv = map[string]string{"SECRET_token": "tok", "SECRET_cert": "cert", "SECRET_apikey": "key"}
 	}
-	rp := c06Load(support, penv)
+	rp := c06Load(support, penv, cs.Opts)
 	if rp.Panic != nil {
 		return rp.Panic
 	}
